@@ -89,7 +89,7 @@ sh(f"rsync -a --delete --exclude .target --exclude .out --exclude .git {HERE}/ {
 tier = "quick"
 if "--tier" in ARGS:
     tier = ARGS[ARGS.index("--tier") + 1]
-env = dict(os.environ, VERIF_REPO=WT, VERIF_TARGET_ROOT=os.path.join(TGT, "verif"))
+env = dict(os.environ, VERIF_REPO=WT, VERIF_TARGET_ROOT=os.path.join(TGT, "verif"), CARGO_INCREMENTAL="0")
 t0 = time.time()
 r = subprocess.run(f"./check {prop} --tier {tier}", shell=True, cwd=SV, env=env, capture_output=True, text=True)
 lines = [l for l in r.stdout.splitlines() if l.startswith("VIOLATION") or "violation x" in l or "INCONCLUSIVE" in l or "tier=" in l]
